@@ -4,6 +4,8 @@ import (
 	"fmt"
 	"math/big"
 	"sort"
+	"strings"
+	"sync"
 	"time"
 
 	"github.com/kardiachain/go-kardia/consensus"
@@ -30,6 +32,8 @@ func (w *World) applyByz(r int, b *ByzAction) {
 	}
 }
 
+var globalSigs sync.Map
+
 var unknownID = types.BlockID{Hash: common.BytesToHash([]byte("unknown-block-unknown-block-0000")), PartsHeader: types.PartSetHeader{Total: 1, Hash: common.BytesToHash([]byte("unknown-parts-unknown-parts-0000"))}}
 
 // byzVote signs a vote with validator b's key.
@@ -41,11 +45,19 @@ func (w *World) byzVote(b int, valIdx uint32, t kproto.SignedMsgType, h uint64, 
 	// canonical timestamp: a function of (height, round, type) only
 	ts := baseTime.Add(time.Duration(h)*1000*time.Second + time.Duration(round)*10*time.Second + time.Duration(t)*time.Second + 500*time.Millisecond)
 	v := &types.Vote{Type: t, Height: h, Round: round, BlockID: id, Timestamp: ts, ValidatorAddress: w.Addrs[b], ValidatorIndex: valIdx}
-	p := v.ToProto()
-	if err := types.NewDefaultPrivValidator(w.Keys[b]).SignVote(w.Gen.ChainID, p); err != nil {
-		panic(err)
+	// signatures are deterministic (RFC 6979) and everything signed is canonical, so they are computed once
+	// per process, not once per execution
+	gk := fmt.Sprintf("%s|%x|%d|%d|%d|%x|%d|%x", w.Gen.ChainID, w.Addrs[b][:], t, h, round, id.Hash[:], id.PartsHeader.Total, id.PartsHeader.Hash[:])
+	if sig, ok := globalSigs.Load(gk); ok {
+		v.Signature = sig.([]byte)
+	} else {
+		p := v.ToProto()
+		if err := types.NewDefaultPrivValidator(w.Keys[b]).SignVote(w.Gen.ChainID, p); err != nil {
+			panic(err)
+		}
+		v.Signature = p.Signature
+		globalSigs.Store(gk, p.Signature)
 	}
-	v.Signature = p.Signature
 	m := w.wrap(consensus.VerifVoteMsg(v), b)
 	m.ByzTag = tag
 	w.byzCache[key] = m
@@ -72,9 +84,13 @@ func (w *World) byzBlock(b int, r int, variant string) *BlockInfo {
 		commit = lc.MakeCommit()
 	}
 	app := &consensus.VerifSimApp{}
-	if variant == "B" || variant == "bad-txhash" {
+	if variant == "B" || variant == "bad-txhash" || strings.HasPrefix(variant, "F") {
 		app.TxScript = func(uint64, common.Address) []*types.Transaction {
-			tx := types.NewTransaction(0, w.Addrs[b], big.NewInt(1), 21000, big.NewInt(1), []byte{byte(b)})
+			payload := []byte{byte(b)}
+			if strings.HasPrefix(variant, "F") {
+				payload = []byte(variant) // a fresh block per round
+			}
+			tx := types.NewTransaction(0, w.Addrs[b], big.NewInt(1), 21000, big.NewInt(1), payload)
 			stx, err := types.SignTx(types.HomesteadSigner{}, tx, w.Keys[b])
 			if err != nil {
 				panic(err)
@@ -91,8 +107,12 @@ func (w *World) byzBlock(b int, r int, variant string) *BlockInfo {
 		parts = block.MakePartSet(types.BlockPartSizeBytes)
 		invalid = variant
 	}
+	switch {
+	case strings.HasPrefix(variant, "F"):
+		variant = "F"
+	}
 	switch variant {
-	case "A", "B":
+	case "A", "B", "F":
 	case "bad-apphash":
 		mutate(func(hd *types.Header) { hd.AppHash = common.BytesToHash([]byte("bogus app hash")) })
 	case "bad-lastblockid":
